@@ -65,8 +65,15 @@ func FieldCase(r *rand.Rand, name string, o FieldOpts) *Case {
 	}
 	sStruct := &Type{K: KStruct}
 	tStruct := &Type{K: KStruct}
-	S := decl(src, "S", sStruct)
-	T := decl(tgt, "T", tStruct)
+	// with the variables format the output package is conv: S and T may live there, so that their unexported
+	// fields are ACCESSIBLE to the emitted code (ignoreUnexported must skip them all the same)
+	samePkg := o.Format == "variables" && r.Intn(3) == 0
+	sp, tp := src, tgt
+	if samePkg {
+		sp, tp = conv, conv
+	}
+	S := decl(sp, "S", sStruct)
+	T := decl(tp, "T", tStruct)
 	flagsConv := vref.Flags{}
 	flagsMeth := vref.Flags{}
 	var convLines, methLines []string
@@ -198,6 +205,20 @@ func FieldCase(r *rand.Rand, name string, o FieldOpts) *Case {
 					tt2 = Ptr(tt2)
 				}
 			}
+			if r.Intn(2) == 0 {
+				// an exact name inside the holder beats a differently cased direct field under matchIgnoreCase
+				st3, tt3 := leafPair()
+				a3 := fname(usedT, base+"AutoZip")
+				usedS[strings.ToLower(a3)] = true
+				inner.Decl.Under.Fields = append(inner.Decl.Under.Fields, F(a3, st3))
+				if hp.K == KPtr && tt3.K != KPtr {
+					tt3 = Ptr(tt3)
+				}
+				sStruct.Fields = append(sStruct.Fields, F(strings.ToUpper(a3), Basic("complex128")))
+				tStruct.Fields = append(tStruct.Fields, F(a3, tt3))
+				needIgnoreCase = true
+				features["exactauto"] = true
+			}
 			sStruct.Fields = append(sStruct.Fields, F(holder, hp))
 			tStruct.Fields = append(tStruct.Fields, F(a1, tt1), F(a2, tt2))
 			methLines = append(methLines, "autoMap "+holder)
@@ -257,6 +278,11 @@ func FieldCase(r *rand.Rand, name string, o FieldOpts) *Case {
 			tn := "u" + fname(usedT, base+"hidden")
 			usedS[strings.ToLower(tn)] = true
 			tStruct.Fields = append(tStruct.Fields, F(tn, Basic("int")))
+			if samePkg {
+				// a same-named accessible source field exists: it still must not be copied
+				sStruct.Fields = append(sStruct.Fields, F(tn, Basic("int")))
+				features["unexported-samepkg"] = true
+			}
 			needIgnoreUnexported = true
 		case "sourceonly":
 			st, _ := leafPair()
@@ -274,9 +300,12 @@ func FieldCase(r *rand.Rand, name string, o FieldOpts) *Case {
 		parts := strings.Split(w, "/")
 		for _, d := range tgt.Decls {
 			if d.Name == parts[1] {
-				f0 := sStruct.Fields[0]
-				if f0.T.K == KBasic {
-					d.Under.Fields = append(d.Under.Fields, F(f0.Name, Basic(f0.T.Basic)))
+				for _, f0 := range sStruct.Fields {
+					// the first exported plain source field
+					if f0.T.K == KBasic && f0.Name[0] >= 'A' && f0.Name[0] <= 'Z' {
+						d.Under.Fields = append(d.Under.Fields, F(f0.Name, Basic(f0.T.Basic)))
+						break
+					}
 				}
 			}
 		}
@@ -456,6 +485,10 @@ func negativeFieldCasesLocal() []*Case {
 			"type In struct{ One Part; Two Part }\ntype Part struct{ V int }\ntype Out struct{ V int }\n", iface("autoMap One", "autoMap Two", "ignoreMissing")),
 		mk("ambiguous_field_method", "a field and a method are case-insensitive candidates and no exact one exists",
 			"type In struct{ Userid int }\nfunc (In) USERID() int { return 1 }\ntype Out struct{ UserId int }\n", iface("matchIgnoreCase")),
+		mk("ambiguous_loose_direct_automap", "a direct field and an autoMap field are case-insensitive candidates and no exact one exists",
+			"type In struct{ ZIPCODE int; Addr Address }\ntype Address struct{ Zipcode int }\ntype Out struct{ ZipCode int }\n", iface("matchIgnoreCase", "autoMap Addr")),
+		mk("ambiguous_loose_two_automap", "two autoMap fields are case-insensitive candidates and no exact one exists",
+			"type In struct{ A1 Address; A2 Address2 }\ntype Address struct{ Zipcode int }\ntype Address2 struct{ ZIPCODE int }\ntype Out struct{ ZipCode int }\n", iface("matchIgnoreCase", "autoMap A1", "autoMap A2")),
 		mk("overlap_automap", "autoMap on the pointer variant while the struct variant is what gets used",
 			"type In struct{ A int; H Hold }\ntype Hold struct{ B int }\ntype Out struct{ A int; B int }\n", "// goverter:converter\n// goverter:ignoreMissing\ntype Converter interface {\n\t// goverter:autoMap H\n\tConvertPtr(source *In) *Out\n\tConvertList(source []In) []Out\n}\n"),
 		mk("overlap_matchignorecase", "matchIgnoreCase on the pointer variant while the struct variant is what gets used",
